@@ -5,8 +5,10 @@ verus! {
 //@include prelude/float.rs
 //@include prelude/rng.rs
 //@include prelude/tensor.rs
+//@include prelude/indicatif.rs
 
 pub mod unit_hmc {
+    use super::pbar::*;
     use vstd::prelude::*;
     use vstd::std_specs::iter::IteratorSpec;
     use super::fl::*;
@@ -31,6 +33,28 @@ pub mod unit_hmc {
                 ad_leaf2(r) == v2(positions),
                 ad_grad2(r).len() == v2(positions).len(),
                 forall |i: int| 0 <= i < v2(positions).len() ==> #[trigger] ad_grad2(r)[i] == self.grad(v2(positions)[i]);
+    }
+
+    // ---- what HMC::run_progress uses of src/stats.rs (contracts proved in units trackers / progress) ----
+    #[verifier::external_body]
+    pub struct RunStats { _p: u8 }
+    pub struct BoxDynError;
+    /// the run summary is a function of the sample alone
+    pub uninterp spec fn runstats_of(sample: C3) -> RunStats;
+    pub struct MultiChainTracker { pub p_accept: Fl, pub n: usize }
+    impl MultiChainTracker {
+        #[verifier::external_body]
+        pub fn new(n_chains: usize, n_params: usize) -> MultiChainTracker { unimplemented!() }
+        /// Ok or Err, never a panic (unit trackers proves the Ok case exactly; nothing of it is needed here)
+        #[verifier::external_body]
+        pub fn step(&mut self, x: &[Fl]) -> Result<(), BoxDynError> { unimplemented!() }
+        #[verifier::external_body]
+        pub fn max_rhat(&self) -> Result<Fl, BoxDynError> { unimplemented!() }
+        /// proved in unit progress: Ok for every backend float type, and a function of the sample only
+        #[verifier::external_body]
+        pub fn stats<B: Backend>(&self, sample: Tensor<B, 3>) -> (r: Result<RunStats, BoxDynError>)
+            ensures r is Ok, r->Ok_0 == runstats_of(v3(sample))
+        { unimplemented!() }
     }
 
     pub struct HMC<B: AutodiffBackend, GTarget> {
@@ -418,6 +442,42 @@ pub mod unit_hmc {
         //@|     assert(n_chains == nn && dim == dd);
         //@| }
         //@anchor fin scope=fn pos=end
+        //@| proof {
+        //@|     assert(hmc_hist_ok::<B, GTarget>(h, *old(self), *self, n_collect + n_discard));
+        //@| }
+        //@end
+
+        pub fn run_progress(&mut self, n_collect: usize, n_discard: usize) -> (res: Result<(Tensor<B, 3>, RunStats), BoxDynError>)
+            requires n_collect + n_discard <= usize::MAX, n_collect < usize::MAX
+            ensures
+                res is Ok,                                                                                                  // [C10.hmc_run_progress_succeeds_for_every_scalar_and_backend_float_type]
+                hmc_run_post::<B, GTarget>(*old(self), *final(self), v3(res->Ok_0.0), n_collect as int, n_discard as int),  // [C10.hmc_run_progress_returns_the_draws_run_returns]
+                res->Ok_0.1 == runstats_of(v3(res->Ok_0.0)),                                                                // [C10.hmc_run_progress_stats_are_those_of_the_returned_draws]
+        //@body id=hmc_run_progress file=src/hmc.rs impl_self=HMC name=run_progress props=C10
+        //@sig fn run_progress (& mut self , n_collect : usize , n_discard : usize ,) -> Result < (Tensor < B , 3 > , RunStats) , Box < dyn Error > >
+        //@rules R-foreach R-fmt R-dynerr R-cast
+        //@anchor h0 scope=fn pos=start
+        //@| let ghost mut h: Seq<HMC<B, GTarget>> = seq![*self];
+        //@| let ghost nn = tdim2(self.positions).0;
+        //@| let ghost dd = tdim2(self.positions).1;
+        //@loop 1 iter=it
+        //@| invariant
+        //@|     it.iter.end == n_discard, tdim2(self.positions) == (nn, dd),
+        //@|     hmc_hist_ok::<B, GTarget>(h, *old(self), *self, __vx_i1 as int),
+        //@anchor p1 scope=loop:1 pos=end
+        //@| proof { h = h.push(*self); }
+        //@loop 2 iter=it2
+        //@| invariant
+        //@|     it2.iter.end == n_collect, tdim2(self.positions) == (nn, dd), n_collect + n_discard <= usize::MAX, nn == n_chains, dd == dim,
+        //@|     hmc_hist_ok::<B, GTarget>(h, *old(self), *self, n_discard + i),
+        //@|     rect3(v3(out), n_collect as int, nn, dd),
+        //@|     forall |k: int| 0 <= k < i ==> (#[trigger] v3(out)[k]) == v2(h[n_discard + k + 1].positions),
+        //@closure 1 params="_out: Tensor<B, 3>" ret="(r: Tensor<B, 3>)"
+        //@| requires rect3(v3(_out), n_collect as int, nn, dd), i < n_collect, tdim2(current_state) == (nn, dd), n_chains == nn, dim == dd
+        //@| ensures v3(r) == v3(_out).update(i as int, v2(current_state))
+        //@anchor p2 scope=loop:2 pos=after match="^self \\. step \\(\\)"
+        //@| proof { h = h.push(*self); }
+        //@anchor fin scope=fn pos=before match="^let sample ="
         //@| proof {
         //@|     assert(hmc_hist_ok::<B, GTarget>(h, *old(self), *self, n_collect + n_discard));
         //@| }
